@@ -181,6 +181,18 @@ CHECKS["C20"] = dict(
          "touch anything outside the protocol is established by the tie (strict logging objects), not by a theorem.",
     ref="§4 C20")
 
+CHECKS["C06"] = dict(
+    category="proof",
+    technique="Coq proof of the seed-handling clause (Model/Seed.v, Props/C06.v) + differential correspondence: generator state after "
+              "construction vs PCG64(seed), identical-seed runs under differently seeded global generators, trip-wired global random functions",
+    text="Theorem (thin, stated as such): every integer seed including 0 is honoured, so equal seeds give the same generator stream and, "
+         "the run being a function of configuration and stream, the same trajectory; the shipped `seed or ...` is refuted for 0. "
+         "The bulk of this property - no stray global randomness in any driver - is a fact about Python call graphs and is established "
+         "by the tie, at exploration strength: all seven drivers, generated tables with forced moves, two same-seed runs in one process "
+         "with re-seeded global generators compared step by step (positions, cell, numbers, move history, log text), trip-wires.",
+    ref="§4 C06",
+    note=COMMON_NOTE + " Proof covers seed handling only; reproducibility and the absence of global randomness are differential-tested.")
+
 NA_REASON = "check not built yet in this round (see DESIGN.md §8 order of construction); no weaker technique substituted"
 
 
